@@ -569,6 +569,37 @@ def run(ctx):
                        [b["op"] for b in cmps], op, order_ok, via, deleg or "nothing", len(falses)))
     ctx.guard("R10.4", r4_cmp)
 
+    def r4_eq():
+        # structural equality of scalars: every scalar arm of <Data as PartialEq>::eq - (Integer|Double|String|Boolean) x the same or the
+        # other numeric type - is one `==` between the two payloads (an Integer widened with `as f64` where the other side is a Double):
+        # no tolerance, no helper, and the two mixed arms mirror each other
+        eqs = [f for f in F.fn_list if f.path.startswith("<datamodel::Data as ") and f.path.endswith("PartialEq>::eq")]
+        ctx.exact("R10.4", "PartialEq implementations of Data", len(eqs), 1)
+        fn = eqs[0]
+        SCALAR = ("Integer", "Double", "String", "Boolean")
+        n = 0
+        for m in fn.nodes("match"):
+            for a in m["arms"]:
+                p = a["pat"]
+                if p.get("k") != "ptup" or len(p["a"]) != 2:
+                    continue
+                heads, binds = [], []
+                for s in p["a"]:
+                    hd = (s.get("r") or {}).get("p", "").split("::")[-1] if s.get("k") == "pts" else None
+                    heads.append(hd)
+                    binds.append(s["a"][0]["b"] if s.get("k") == "pts" and len(s.get("a", [])) == 1 and s["a"][0].get("k") == "bind" else None)
+                if not all(h in SCALAR for h in heads):
+                    continue
+                n += 1
+                body = peel(a["body"], NO_T)
+                sides = {local_of(body["l"], NO_T), local_of(body["r"], NO_T)} if body.get("k") == "bin" and body["op"] == "Eq" else set()
+                calls = [c for c in hirq.walk(a["body"]) if c.get("k") in ("call", "mcall")]
+                ok = None not in binds and sides == set(binds) and not calls
+                ctx.ob("R10.4", site_key(fn, "(%s, %s) compares the two payloads with ==" % tuple(heads)), ok, line_of(a["body"]),
+                       "arm value %s" % describe(a["body"])[:80])
+        ctx.floor("R10.4", "scalar arms of Data::eq", n, 6)
+    ctx.guard("R10.4", r4_eq)
+
     # ------------------------------------------------------------------------------------------ R10.5
     ctx.rule("R10.5", "cache equivalence: each get_copy rebuilds its own type and initialises every field (through the constructor's "
                       "parameter->field mapping) from the same field of self, collections element-wise in order; compile() caches and "
